@@ -1,7 +1,9 @@
 (* SIR_VariableInfection (Model/CompartVI.v) run by the dynamic kernel (Model/KernelDyn.v):
      - its programs are Model/Compart.v's event functions on the base part of the state;
-     - only Monitor.observe is ever posted, and it is inert: hence, under stochastic dynamics too,
-       every call of infect is on an edge that is in the SI locus at that instant;
+     - under either dynamics every call of infect is on an edge that is in the SI locus at that
+       instant (the loops test it; unconditional since repair F15);
+     - for the shipped class (no event function posts, no set-up posting) only Monitor.observe is
+       ever queued, and it is inert;
      - the per-element distribution is the registered events followed by one entry per element
        of the SI locus, in ascending order, with that edge's infectivity;
      - the run invariant of Proofs/CompartInv.v (kernel loci = sorted handler loci, C01 loci
@@ -19,10 +21,11 @@ From EpyV Require Import Lib.Prelude Model.Kernel Model.KernelDyn Model.Loci Mod
 Import ListNotations.
 Close Scope Q_scope.
 
-(* no event function of the model posts an event *)
+(* no event function of the model posts an event, and set-up posts nothing (the shipped class) *)
 Definition kind_nopost (h : hkind) : bool := match h with HLeft _ _ (Some _) => false | _ => true end.
 Definition vi_nopost (vm : vimodel) : bool :=
-  forallb kind_nopost (map ce_kind (vim_events vm)) && kind_nopost (vim_infect vm).
+  forallb kind_nopost (map ce_kind (vim_events vm)) && kind_nopost (vim_infect vm)
+  && match vim_seed_post vm with None => true | Some _ => false end.
 
 (* the arrows of the model: left compartment of the locus -> target of the event function, for the
    registered events and for the appended infection entries *)
@@ -86,7 +89,7 @@ Qed.
 
 Lemma nopost_kinds h : vi_nopost vm = true -> In h (cm_kinds cm) -> kind_nopost h = true.
 Proof.
-  unfold vi_nopost. rewrite andb_true_iff, forallb_forall. intros [H1 H2] Hin. rewrite kinds_eq in Hin.
+  unfold vi_nopost. rewrite !andb_true_iff, forallb_forall. intros [[H1 H2] _] Hin. rewrite kinds_eq in Hin.
   apply in_app_or in Hin. destruct Hin as [Hin|[<-|[<-|[]]]]; [apply H1, Hin | exact H2 | reflexivity].
 Qed.
 
@@ -97,9 +100,11 @@ Proof.
   rewrite lift_prog_snd. apply handler_posts_ok. apply (nopost_kinds h Hn). eapply nth_error_In. exact E.
 Qed.
 
-Lemma vi_setup_posts : forall p, In p (t_procs (d_tb D)) -> Forall (posts_ok vi_posted) (p_setup p).
+Lemma vi_setup_posts : vi_nopost vm = true -> forall p, In p (t_procs (d_tb D)) -> Forall (posts_ok vi_posted) (p_setup p).
 Proof.
-  unfold D, mk_vitable, mk_table. cbn [d_tb t_procs cm_seed_post vi_cm].
+  intros Hn. assert (Hs : vim_seed_post vm = None).
+  { unfold vi_nopost in Hn. rewrite !andb_true_iff in Hn. destruct Hn as [_ Hn]. destruct (vim_seed_post vm); [discriminate | reflexivity]. }
+  unfold D, mk_vitable, mk_table. cbn [d_tb t_procs cm_seed_post vi_cm]. rewrite Hs.
   destruct monitor as [delta|]; cbn [In]; intros p [<-|[<-|[]]] || intros p [<-|[]]; cbn [p_setup]; try constructor.
   - cbn [posts_ok]. unfold vi_posted. reflexivity.
   - constructor.
@@ -125,11 +130,9 @@ Proof.
 Qed.
 
 (* ------------------------------------------------------------------ C05 under stochastic dynamics *)
-Theorem vi_stoch_member pf fuel rs ls ds k t c e m : vi_nopost vm = true ->
+Theorem vi_stoch_member pf fuel rs ls ds k t c e m :
   In (OHandler k t c e (Some m)) (r_out (dstoch_run D pf fuel rs ls ds)) -> m = true.
-Proof.
-  intros Hn. exact (dstoch_run_member D vi_posted vi_setup_posts (vi_progs_posts Hn) vi_posted_inert vi_dyn_sound pf fuel rs ls ds k t c e m).
-Qed.
+Proof. exact (dstoch_run_member D pf fuel rs ls ds k t c e m). Qed.
 
 (* ------------------------------------------------------------------ the distribution *)
 Lemma all_events_eq : all_events (d_tb D) = all_events tb0.
@@ -186,7 +189,7 @@ Proof.
   refine (DSteps_inv D Xtr (qinv vi_posted) _ _ _ cs s _ H).
   - intros s1 s2 Hq (_ & _ & _ & Hi). exact (qinv_incl vi_posted s1 s2 Hi Hq).
   - intros s1 c Hq Hok. exact (dafter_qinv D vi_posted (vi_progs_posts Hn) Xtr c s1 Hok Hq).
-  - apply (setup_qinv D vi_posted vi_setup_posts).
+  - apply (setup_qinv D vi_posted (vi_setup_posts Hn)).
 Qed.
 
 (* ------------------------------------------------------------------ C07_partition *)
@@ -268,14 +271,16 @@ Proof.
   unfold vi_infect_prog. rewrite kinds_eq, nth_error_app2; rewrite map_length; [|lia]. rewrite Nat.sub_diag. reflexivity.
 Qed.
 
-(* C07_diagram for every call of a run: whatever compartment changes is an arrow of the model *)
-Theorem vi_call_diagram Xtr c s : vi_nopost vm = true -> VJ s -> qinv vi_posted s -> dcall_ok D Xtr c s ->
+(* C07_diagram for every call of a stochastic / per-element event function or appended entry:
+   whatever compartment changes is an arrow of the model *)
+Theorem vi_call_diagram Xtr c s : VJ s -> dcall_ok D Xtr c s -> (forall h, c <> DPost h) ->
   forall v, getc (cw_st (vi_base (world (dafter D c s)))) v <> getc (cw_st (vi_base (world s))) v ->
   exists l c', getc (cw_st (vi_base (world s))) v = Some l /\ getc (cw_st (vi_base (world (dafter D c s)))) v = Some c'
     /\ In (l, c') (vi_arrows vm).
 Proof.
-  intros Hn Hj Hq Hok v Hne. pose proof (dafter_lw D c s) as A.
-  destruct c as [[[pi j] ev] t e|pi d t|h]; cbn [dcall_args snd] in A; destruct A as [_ A]; rewrite A in *; clear A.
+  intros Hj Hok Hnp v Hne. pose proof (dafter_lw D c s) as A.
+  destruct c as [[[pi j] ev] t e|pi d t|h]; [| |exfalso; exact (Hnp h eq_refl)];
+    cbn [dcall_args snd] in A; destruct A as [_ A]; rewrite A in *; clear A.
   - destruct Hok as (Hx & Hm & _). destruct (all_events_vi pi j ev Hx) as [-> [cev [En ->]]].
     cbn [mk_ev ev_prog ev_locus snd] in *. rewrite vi_prog_of, (event_kind cm j cev En), lift_prog_fst in *. cbn [vi_base] in *.
     destruct (handler_arrow (ce_locus cev) (ce_kind cev) t e (loci s) (vi_base (world s)) Hj Hm v Hne) as [c' [G1 [G2 G3]]].
@@ -285,9 +290,17 @@ Proof.
     cbn [vi_entry de_prog de_value de_member] in *. rewrite vi_prog_of, infect_kind, lift_prog_fst in *. cbn [vi_base] in *.
     destruct (handler_arrow si (vim_infect vm) t e (loci s) (vi_base (world s)) Hj Hm v Hne) as [c' [G1 [G2 G3]]].
     exists (locus_left (nth si specs default_spec)), c'. split; [exact G1|]. split; [exact G2|]. apply arrows_infect. exact G3.
-  - exfalso. apply Hne. destruct Hok as [Hh _]. apply head_in in Hh.
-    assert (Hp : vi_posted (e_prog h)) by (unfold qinv in Hq; rewrite Forall_forall in Hq; exact (Hq h Hh)).
-    destruct (vi_posted_inert _ Hp (e_time h) (e_elem h) (loci s) (world s)) as [I1 _]. rewrite I1. reflexivity.
+Qed.
+
+(* for the shipped class the posted events (Monitor.observe) change neither compartments nor loci *)
+Theorem vi_posted_call_inert Xtr h s : qinv vi_posted s -> dcall_ok D Xtr (DPost h) s ->
+  world (dafter D (DPost h) s) = world s /\ loci (dafter D (DPost h) s) = loci s.
+Proof.
+  intros Hq [Hh _]. apply head_in in Hh.
+  assert (Hp : vi_posted (e_prog h)) by (unfold qinv in Hq; rewrite Forall_forall in Hq; exact (Hq h Hh)).
+  pose proof (dafter_lw D (DPost h) s) as A. cbn [dcall_args] in A. destruct A as [A1 A2].
+  destruct (vi_posted_inert _ Hp (e_time h) (e_elem h) (loci s) (world s)) as [I1 I2].
+  rewrite A1, A2, I1, I2. split; reflexivity.
 Qed.
 
 (* C07_through_infectious_edge for the appended entries: when infect is entered, under either
@@ -326,12 +339,10 @@ Proof.
 Qed.
 
 (* ------------------------------------------------------------------ whole runs as call sequences *)
-Theorem vi_stoch_run_steps pf fuel rs ls ds : vi_nopost vm = true ->
+Theorem vi_stoch_run_steps pf fuel rs ls ds :
   exists cs, DSteps D (fun _ => True) (setup_state (d_tb D) rs ls ds) cs (r_final (dstoch_run D pf fuel rs ls ds)).
 Proof.
-  intros Hn.
-  exact (dstoch_run_dsteps D vi_posted (vi_progs_posts Hn) vi_setup_posts vi_posted_inert (fun _ => True) (fun _ => True)
-           (fun _ _ _ => I) (fun _ _ _ _ _ _ _ => I) vi_dyn_sound pf fuel rs ls ds I).
+  exact (dstoch_run_dsteps D (fun _ => True) (fun _ => True) (fun _ _ _ => I) (fun _ _ _ _ _ _ _ => I) pf fuel rs ls ds I).
 Qed.
 
 Theorem vi_sync_run_steps pf fuel rs ds :
